@@ -24,6 +24,7 @@
 from __future__ import annotations
 
 from collections.abc import Mapping
+from pathlib import Path
 from typing import TYPE_CHECKING
 from typing import Union
 
@@ -37,8 +38,6 @@ from numpy import ndarray
 from gemseo.utils.hdf5 import get_hdf5_group
 
 if TYPE_CHECKING:
-    from pathlib import Path
-
     from numpy.typing import ArrayLike
 
     from gemseo.algos.database import Database
@@ -64,8 +63,17 @@ class HDFDatabase:
     membership.
     """
 
+    __append_target: tuple[str, str] | None
+    """The file path and the HDF node path of the last export in append mode.
+
+    The buffer of input values is relative to this export:
+    it contains the input values stored since the last time this node was appended.
+    ``None`` if the database has not yet been exported in append mode.
+    """
+
     def __init__(self) -> None:  # noqa:D107
         self.__pending_arrays = {}
+        self.__append_target = None
 
     @staticmethod
     def __to_real(data: ArrayLike) -> ndarray:
@@ -374,6 +382,7 @@ class HDFDatabase:
                 the database should be exported.
                 If empty, the root node is considered.
         """
+        target = (str(Path(file_path).resolve()), hdf_node_path)
         with h5py.File(file_path, "a" if append else "w") as h5file:
             if hdf_node_path:
                 h5file = h5file.require_group(hdf_node_path)
@@ -395,7 +404,15 @@ class HDFDatabase:
                     value: key for key, value in enumerate(database.keys())
                 }
 
-                for input_values in self.__pending_arrays.values():
+                # The buffer only tells what has been stored
+                # since the last export in append mode to this very file and node;
+                # for any other target, all the entries have to be considered.
+                if target == self.__append_target:
+                    pending_arrays = self.__pending_arrays.values()
+                else:
+                    pending_arrays = database.keys()
+
+                for input_values in pending_arrays:
                     output_values = database[input_values]
                     index_dataset = input_values_to_idx[input_values]
 
@@ -430,7 +447,11 @@ class HDFDatabase:
             ):
                 input_space.to_hdf(file_path, append=True, hdf_node_path=hdf_node_path)
 
-        self.__pending_arrays.clear()
+        # An export which is not in append mode does not use the buffer
+        # and tells nothing about the file that is appended.
+        if append:
+            self.__pending_arrays.clear()
+            self.__append_target = target
 
     @staticmethod
     def update_from_file(
